@@ -12,6 +12,8 @@ use std::{
 use crate::json::{bytes_j, J};
 
 pub const SFS_BIN: &str = "/verif/target/cli/release/sfs";
+/// Root of the per-process scratch directories.
+pub const SCRATCH_ROOT: &str = "/verif/target/scratch";
 
 #[derive(Clone, Debug)]
 pub struct Out {
@@ -97,11 +99,7 @@ pub struct Scratch {
 
 impl Scratch {
     pub fn new(tag: &str) -> Scratch {
-        let dir = PathBuf::from(format!(
-            "/verif/target/scratch/{}-{}",
-            tag,
-            std::process::id()
-        ));
+        let dir = PathBuf::from(format!("{SCRATCH_ROOT}/{}-{}", tag, std::process::id()));
         let _ = fs::remove_dir_all(&dir);
         fs::create_dir_all(&dir).expect("cannot create scratch dir");
         Scratch {
@@ -489,25 +487,44 @@ pub fn run_sfs_output_fifo(args: &[&str], stdin: &[u8], suffix: &str, scratch: &
         std::process::exit(2);
     }
     let a: Vec<&str> = args.iter().map(|x| if *x == "{FIFO}" { path.to_str().unwrap() } else { *x }).collect();
+    // the reading end is opened (non-blocking) before the subject starts and is held whatever the
+    // subject does with the path - also when it never opens it or replaces it by something else
+    let mut f = match fs::OpenOptions::new().read(true).custom_flags(libc::O_NONBLOCK).open(&path) {
+        Ok(f) => f,
+        Err(e) => {
+            eprintln!("ENGINE: cannot open {}: {e}", path.display());
+            std::process::exit(2);
+        }
+    };
     let done = Arc::new(AtomicBool::new(false));
-    let (rpath, rdone) = (path.clone(), done.clone());
+    let rdone = done.clone();
     let reader = std::thread::spawn(move || {
         let mut v = Vec::new();
-        // blocks until the subject (or the release below) opens the FIFO for writing
-        if let Ok(mut f) = fs::File::open(&rpath) {
-            let _ = f.read_to_end(&mut v);
+        let mut buf = vec![0u8; 1 << 16];
+        loop {
+            let finished = rdone.load(Ordering::SeqCst);
+            match f.read(&mut buf) {
+                Ok(0) => {
+                    // no writer at the moment: before the subject has opened the pipe, or after it closed it
+                    if finished {
+                        break;
+                    }
+                    std::thread::sleep(std::time::Duration::from_micros(200));
+                }
+                Ok(n) => v.extend_from_slice(&buf[..n]),
+                Err(e) if e.kind() == std::io::ErrorKind::WouldBlock => {
+                    if finished {
+                        break;
+                    }
+                    std::thread::sleep(std::time::Duration::from_micros(200));
+                }
+                Err(_) => break,
+            }
         }
-        rdone.store(true, Ordering::SeqCst);
         v
     });
     let o = run_sfs(&a, Stdin::Bytes(stdin), scratch);
-    // release a helper that is still blocked because the subject never opened the FIFO
-    let mut spins = 0;
-    while !done.load(Ordering::SeqCst) && spins < 5000 {
-        let _ = fs::OpenOptions::new().write(true).custom_flags(libc::O_NONBLOCK).open(&path);
-        std::thread::sleep(std::time::Duration::from_millis(1));
-        spins += 1;
-    }
+    done.store(true, Ordering::SeqCst);
     let got = reader.join().unwrap_or_default();
     let _ = fs::remove_file(&path);
     (o, got)
@@ -589,4 +606,354 @@ pub fn run_sfs_stdout_closed_pipe(args: &[&str], stdin: &[u8], scratch: &Scratch
     };
     let _ = fs::remove_file(inp);
     Out { code: out.status.code(), signal: out.status.signal(), stdout: Vec::new(), stderr: out.stderr }
+}
+
+// ---------------------------------------------------------------------------------------------
+// Respellings: other ways of writing the same command line.
+
+/// (short, long, takes a value, the value is a comma-separated list, the value is numeric)
+type OptSpec = (Option<&'static str>, &'static str, bool, bool, bool);
+
+fn option_table(sub: &str) -> Vec<OptSpec> {
+    let mut t: Vec<OptSpec> = vec![(Some("-q"), "--quiet", false, false, false), (Some("-v"), "--verbose", false, false, false)];
+    match sub {
+        "view" => t.extend([
+            (Some("-o"), "--output", true, false, false),
+            (Some("-O"), "--output-format", true, false, false),
+            (Some("-m"), "--marginalize-remove", true, true, true),
+            (Some("-M"), "--marginalize-keep", true, true, true),
+            (None, "--mask-monomorphic", false, false, false),
+            (Some("-n"), "--normalize", false, false, false),
+            (Some("-p"), "--project-individuals", true, true, true),
+            (None, "--project-shape", true, true, true),
+            (None, "--precision", true, false, true),
+        ]),
+        "fold" => t.extend([(Some("-s"), "--fill", true, false, false), (Some("-o"), "--output", true, false, false), (Some("-p"), "--precision", true, false, true)]),
+        "stat" => t.extend([
+            (Some("-d"), "--delimiter", true, false, false),
+            (Some("-H"), "--header", false, false, false),
+            (Some("-p"), "--precision", true, true, true),
+            (Some("-s"), "--statistics", true, true, false),
+        ]),
+        _ => t.extend([
+            (None, "--precision", true, false, true),
+            (Some("-p"), "--project-individuals", true, true, true),
+            (None, "--project-shape", true, true, true),
+            (Some("-s"), "--samples", true, true, false),
+            (Some("-S"), "--samples-file", true, false, false),
+            (None, "--strict", false, false, false),
+            (Some("-t"), "--threads", true, false, true),
+        ]),
+    }
+    t
+}
+
+/// Other spellings of `argv` (subcommand first) that mean the same: every option in its long form
+/// with `=`, in its short form with the value attached, list values as repeated occurrences, the
+/// options in reverse order behind the positional arguments, numbers with a leading `+` or zeros,
+/// and the defaults spelled out. Returns `None` when a token is not understood (then nothing is
+/// respelled).
+pub fn respellings(argv: &[&str]) -> Option<Vec<(&'static str, Vec<String>)>> {
+    let sub = *argv.first()?;
+    let table = option_table(sub);
+    // parse into (spec index, value) and positionals
+    let mut opts: Vec<(usize, Option<String>)> = Vec::new();
+    let mut positional: Vec<String> = Vec::new();
+    let mut i = 1;
+    while i < argv.len() {
+        let tok = argv[i];
+        if tok.starts_with('-') && tok.len() > 1 && tok != "-" {
+            // clusters of verbosity flags such as -vv / -qq stay as they are
+            let spec = if tok.chars().skip(1).all(|c| c == 'v') && tok.len() > 2 {
+                for _ in 1..tok.len() {
+                    opts.push((1, None));
+                }
+                i += 1;
+                continue;
+            } else if tok.chars().skip(1).all(|c| c == 'q') && tok.len() > 2 {
+                for _ in 1..tok.len() {
+                    opts.push((0, None));
+                }
+                i += 1;
+                continue;
+            } else {
+                table.iter().position(|s| s.0 == Some(tok) || s.1 == tok)?
+            };
+            if table[spec].2 {
+                opts.push((spec, Some(argv.get(i + 1)?.to_string())));
+                i += 2;
+            } else {
+                opts.push((spec, None));
+                i += 1;
+            }
+        } else {
+            positional.push(tok.to_string());
+            i += 1;
+        }
+    }
+    let render = |f: &dyn Fn(&OptSpec, &Option<String>) -> Vec<String>, order_rev: bool, pos_first: bool| -> Vec<String> {
+        let mut out = vec![sub.to_string()];
+        if pos_first {
+            out.extend(positional.iter().cloned());
+        }
+        let it: Vec<&(usize, Option<String>)> = if order_rev { opts.iter().rev().collect() } else { opts.iter().collect() };
+        for (s, v) in it {
+            out.extend(f(&table[*s], v));
+        }
+        if !pos_first {
+            out.extend(positional.iter().cloned());
+        }
+        out
+    };
+    let plain = |s: &OptSpec, v: &Option<String>| -> Vec<String> {
+        let name = s.0.unwrap_or(s.1).to_string();
+        match v {
+            Some(v) => vec![name, v.clone()],
+            None => vec![name],
+        }
+    };
+    let mut out: Vec<(&'static str, Vec<String>)> = Vec::new();
+    out.push(("long-with-equals", render(&|s, v| match v { Some(v) => vec![format!("{}={v}", s.1)], None => vec![s.1.to_string()] }, false, false)));
+    out.push(("short-attached", render(&|s, v| match (s.0, v) { (Some(sh), Some(v)) if !v.is_empty() => vec![format!("{sh}{v}")], _ => plain(s, v) }, false, false)));
+    out.push(("lists-repeated", render(&|s, v| match v {
+        Some(v) if s.3 && v.contains(',') => v.split(',').flat_map(|e| vec![s.0.unwrap_or(s.1).to_string(), e.to_string()]).collect(),
+        _ => plain(s, v),
+    }, false, false)));
+    out.push(("options-reversed-after-positional", render(&plain, true, true)));
+    out.push(("plus-and-zeros", render(&|s, v| match v {
+        Some(v) if s.4 && !v.is_empty() => {
+            let parts: Vec<String> = v.split(',').enumerate().map(|(k, e)| if e.chars().all(|c| c.is_ascii_digit()) && !e.is_empty() { if k % 2 == 0 { format!("+{e}") } else { format!("00{e}") } } else { e.to_string() }).collect();
+            vec![s.0.unwrap_or(s.1).to_string(), parts.join(",")]
+        }
+        _ => plain(s, v),
+    }, false, false)));
+    // defaults spelled out (only those not given)
+    let given = |long: &str| opts.iter().any(|(s, _)| table[*s].1 == long);
+    let mut with_defaults = render(&plain, false, false);
+    let mut extra: Vec<String> = Vec::new();
+    match sub {
+        "view" => {
+            if !given("--output-format") {
+                extra.extend(["--output-format".to_string(), "text".to_string()]);
+            }
+            if !given("--precision") {
+                extra.extend(["--precision".to_string(), "6".to_string()]);
+            }
+        }
+        "fold" => {
+            if !given("--fill") {
+                extra.extend(["--fill".to_string(), "nan".to_string()]);
+            }
+            if !given("--precision") {
+                extra.extend(["--precision".to_string(), "6".to_string()]);
+            }
+        }
+        "stat" => {
+            if !given("--precision") {
+                extra.extend(["--precision".to_string(), "6".to_string()]);
+            }
+            if !given("--delimiter") {
+                extra.extend(["--delimiter".to_string(), ",".to_string()]);
+            }
+        }
+        _ => {
+            if !given("--threads") {
+                extra.extend(["--threads".to_string(), "4".to_string()]);
+            }
+        }
+    }
+    if !extra.is_empty() {
+        let at = with_defaults.len() - positional.len();
+        for (k, e) in extra.into_iter().enumerate() {
+            with_defaults.insert(at + k, e);
+        }
+        out.push(("defaults-spelled-out", with_defaults));
+    }
+    let canonical: Vec<String> = argv.iter().map(|s| s.to_string()).collect();
+    out.retain(|(_, a)| *a != canonical);
+    Some(out)
+}
+
+/// Runs `argv` and each of its respellings on `stdin`; a respelling that gives another exit status or
+/// other stdout is returned as (kind, respelled argv, description).
+pub fn respelling_differences(argv: &[&str], stdin: &[u8], scratch: &Scratch) -> Vec<(String, Vec<String>, String)> {
+    let Some(variants) = respellings(argv) else { return Vec::new() };
+    let base = run_sfs(argv, Stdin::Bytes(stdin), scratch);
+    let mut out = Vec::new();
+    for (kind, a) in variants {
+        let av: Vec<&str> = a.iter().map(|s| s.as_str()).collect();
+        let o = run_sfs(&av, Stdin::Bytes(stdin), scratch);
+        if o.code != base.code || o.signal != base.signal || o.stdout != base.stdout {
+            out.push((
+                kind.to_string(),
+                a.clone(),
+                format!("{a:?} gives {} with {} bytes of output ({}), {argv:?} gives {} with {} bytes", o.status_str(), o.stdout.len(), o.stderr_str().lines().last().unwrap_or("").chars().take(160).collect::<String>(), base.status_str(), base.stdout.len()),
+            ));
+        }
+    }
+    // the same call over other routes: the hidden global --debug flag (its report belongs on stderr),
+    // the input named as /dev/stdin, and, for the commands that have --output, the output written
+    // over an existing, longer file
+    let sub = argv[0];
+    let canonical: Vec<String> = argv.iter().map(|s| s.to_string()).collect();
+    let has_positional = respelled_positionals(argv).map_or(true, |n| n > 0);
+    let mut routes: Vec<(&str, Vec<String>)> = Vec::new();
+    let mut front = vec!["--debug".to_string()];
+    front.extend(canonical.iter().cloned());
+    routes.push(("debug-flag-in-front", front));
+    let mut behind = canonical.clone();
+    behind.insert(1, "--debug".to_string());
+    routes.push(("debug-flag-behind-subcommand", behind));
+    if !has_positional {
+        let mut named = canonical.clone();
+        named.push("/dev/stdin".to_string());
+        routes.push(("input-named-dev-stdin", named));
+    }
+    for (kind, a) in routes {
+        let av: Vec<&str> = a.iter().map(|s| s.as_str()).collect();
+        // (/dev/stdin is then a pipe, not a regular file)
+        let o = if kind == "input-named-dev-stdin" { run_sfs_piped(&av, &[stdin], 0, scratch) } else { run_sfs(&av, Stdin::Bytes(stdin), scratch) };
+        if o.code != base.code || o.signal != base.signal || o.stdout != base.stdout {
+            out.push((
+                kind.to_string(),
+                a.clone(),
+                format!("{a:?} gives {} with {} bytes of output ({}), {argv:?} gives {} with {} bytes", o.status_str(), o.stdout.len(), o.stderr_str().lines().last().unwrap_or("").chars().take(160).collect::<String>(), base.status_str(), base.stdout.len()),
+            ));
+        }
+    }
+    if (sub == "view" || sub == "fold") && base.ok() && !argv.iter().any(|a| *a == "-o" || a.starts_with("--output") && !a.starts_with("--output-format")) {
+        let mut old = base.stdout.clone();
+        old.extend_from_slice(b"7 7 7 7 7 7 7 7 7 7 7 7 7 7 7 7 7 7 7 7 7 7 7 7 7 7 7 7 7 7 7 7\n");
+        let path = scratch.file(".existing", &old);
+        let mut a = canonical.clone();
+        a.insert(1, path.to_str().unwrap().to_string());
+        a.insert(1, "-o".to_string());
+        let av: Vec<&str> = a.iter().map(|s| s.as_str()).collect();
+        let o = run_sfs(&av, Stdin::Bytes(stdin), scratch);
+        let written = fs::read(&path).unwrap_or_default();
+        if !o.ok() || !o.stdout.is_empty() || written != base.stdout {
+            out.push((
+                "output-over-longer-existing-file".to_string(),
+                a.clone(),
+                format!("{a:?} gives {} and leaves {} bytes in the file, {argv:?} prints {} bytes", o.status_str(), written.len(), base.stdout.len()),
+            ));
+        }
+        let _ = fs::remove_file(&path);
+        // ... into a named pipe that somebody reads
+        {
+            let mut a = canonical.clone();
+            a.insert(1, "{FIFO}".to_string());
+            a.insert(1, "-o".to_string());
+            let av: Vec<&str> = a.iter().map(|s| s.as_str()).collect();
+            let (o, got) = run_sfs_output_fifo(&av, stdin, "", scratch);
+            if !o.ok() || !o.stdout.is_empty() || got != base.stdout {
+                out.push((
+                    "output-into-a-named-pipe".to_string(),
+                    a.clone(),
+                    format!("{a:?} gives {} ({}) and sends {} bytes through the pipe, {argv:?} prints {} bytes", o.status_str(), o.stderr_str().lines().last().unwrap_or("").chars().take(160).collect::<String>(), got.len(), base.stdout.len()),
+                ));
+            }
+        }
+        // ... and over the input file itself (the input is read before the output is opened)
+        if !has_positional {
+            let path = scratch.file(".inplace", stdin);
+            let mut a = canonical.clone();
+            a.extend(["-o".to_string(), path.to_str().unwrap().to_string(), path.to_str().unwrap().to_string()]);
+            let av: Vec<&str> = a.iter().map(|s| s.as_str()).collect();
+            let o = run_sfs(&av, Stdin::Null, scratch);
+            let written = fs::read(&path).unwrap_or_default();
+            if !o.ok() || !o.stdout.is_empty() || written != base.stdout {
+                out.push((
+                    "output-onto-the-input-file".to_string(),
+                    a.clone(),
+                    format!("{a:?} gives {} ({}) and leaves {} bytes in the file, {argv:?} prints {} bytes", o.status_str(), o.stderr_str().lines().last().unwrap_or("").chars().take(160).collect::<String>(), written.len(), base.stdout.len()),
+                ));
+            }
+            let _ = fs::remove_file(&path);
+        }
+    }
+    // a text spectrum with CRLF line ends, and without the final line end
+    if sub != "create" && stdin.starts_with(b"#SHAPE") && !has_positional {
+        let text = String::from_utf8_lossy(stdin).to_string();
+        let crlf = text.replace('\n', "\r\n");
+        let bare = text.trim_end_matches('\n').to_string();
+        let crlf_bare = crlf.trim_end_matches("\r\n").to_string();
+        for (kind, input) in [("text-input-crlf", crlf), ("text-input-no-final-newline", bare), ("text-input-crlf-no-final-newline", crlf_bare)] {
+            let o = run_sfs(argv, Stdin::Bytes(input.as_bytes()), scratch);
+            if o.code != base.code || o.signal != base.signal || o.stdout != base.stdout {
+                out.push((
+                    kind.to_string(),
+                    canonical.clone(),
+                    format!("{argv:?} on the input in this spelling gives {} with {} bytes of output ({}), on the plain input {} with {} bytes", o.status_str(), o.stdout.len(), o.stderr_str().lines().last().unwrap_or("").chars().take(160).collect::<String>(), base.status_str(), base.stdout.len()),
+                ));
+            }
+        }
+    }
+    // create: the sample list as a samples file in every line-end spelling, and given in parts
+    if sub == "create" {
+        if let Some(at) = argv.iter().position(|a| *a == "-s" || *a == "--samples") {
+            if let Some(list) = argv.get(at + 1) {
+                for (kind, spelled) in samples_spellings(list, scratch) {
+                    let mut a: Vec<String> = canonical[..at].to_vec();
+                    a.extend(spelled);
+                    a.extend(canonical[at + 2..].iter().cloned());
+                    if a == canonical {
+                        continue;
+                    }
+                    let av: Vec<&str> = a.iter().map(|s| s.as_str()).collect();
+                    let o = run_sfs(&av, Stdin::Bytes(stdin), scratch);
+                    if o.code != base.code || o.signal != base.signal || o.stdout != base.stdout {
+                        out.push((
+                            kind.to_string(),
+                            a.clone(),
+                            format!("{a:?} gives {} with {} bytes of output ({}), {argv:?} gives {} with {} bytes", o.status_str(), o.stdout.len(), o.stderr_str().lines().last().unwrap_or("").chars().take(160).collect::<String>(), base.status_str(), base.stdout.len()),
+                        ));
+                    }
+                }
+            }
+        }
+    }
+    out
+}
+
+/// Arguments that say the same as `-s LIST`: the list itself, the list in parts, and a samples file
+/// (sample, tab, label) with LF or CRLF line ends, with and without the final line end, and mixed.
+pub fn samples_spellings(list: &str, scratch: &Scratch) -> Vec<(&'static str, Vec<String>)> {
+    let entries: Vec<&str> = list.split(',').collect();
+    let lines: Vec<String> = entries.iter().map(|e| match e.split_once('=') { Some((n, l)) => format!("{n}\t{l}"), None => e.to_string() }).collect();
+    let mut out: Vec<(&'static str, Vec<String>)> = vec![("samples-list", vec!["-s".to_string(), list.to_string()])];
+    if entries.len() > 1 {
+        out.push(("samples-list-in-parts", entries.iter().flat_map(|e| ["-s".to_string(), e.to_string()]).collect()));
+    }
+    let file = |kind: &'static str, content: String| -> (&'static str, Vec<String>) {
+        let p = scratch.file(".samples", content.as_bytes());
+        (kind, vec!["-S".to_string(), p.to_str().unwrap().to_string()])
+    };
+    out.push(file("samples-file-lf", lines.iter().map(|l| format!("{l}\n")).collect()));
+    out.push(file("samples-file-lf-no-final-newline", lines.join("\n")));
+    out.push(file("samples-file-crlf", lines.iter().map(|l| format!("{l}\r\n")).collect()));
+    out.push(file("samples-file-crlf-no-final-newline", lines.join("\r\n")));
+    out.push(file("samples-file-mixed-line-ends", lines.iter().enumerate().map(|(i, l)| if i % 2 == 0 { format!("{l}\r\n") } else { format!("{l}\n") }).collect()));
+    out
+}
+
+/// Number of positional arguments of `argv` (None when a token is not understood).
+fn respelled_positionals(argv: &[&str]) -> Option<usize> {
+    let table = option_table(argv.first()?);
+    let (mut i, mut n) = (1, 0);
+    while i < argv.len() {
+        let tok = argv[i];
+        if tok.starts_with('-') && tok.len() > 1 {
+            if tok[1..].chars().all(|c| c == 'v') || tok[1..].chars().all(|c| c == 'q') {
+                i += 1;
+                continue;
+            }
+            let spec = table.iter().position(|s| s.0 == Some(tok) || s.1 == tok)?;
+            i += if table[spec].2 { 2 } else { 1 };
+        } else {
+            n += 1;
+            i += 1;
+        }
+    }
+    Some(n)
 }
